@@ -20,7 +20,7 @@ from sa import report  # noqa: E402
 ALL = ['C%02d' % i for i in range(1, 21)]
 
 
-def run_property(pid, repo_path, tier, replay=None, write_evidence=True, out=sys.stdout, notes=None):
+def run_property(pid, repo_path, tier, replay=None, write_evidence=True, out=sys.stdout, notes=None, collect=None):
     try:
         mod = importlib.import_module('sa.props.%s' % pid.lower())
     except ImportError as e:
@@ -40,6 +40,8 @@ def run_property(pid, repo_path, tier, replay=None, write_evidence=True, out=sys
         check.inconclusive(pid, '-', e.reason, key='inconclusive')
     except Exception as e:
         check.inconclusive(pid, '-', 'internal error: %s: %s | %s' % (type(e).__name__, e, traceback.format_exc()), key='internal')
+    if collect is not None:
+        collect['modules'] = sorted(set(k.split(':')[0] for k in check.stats['functions_analysed']))
     only = None
     if replay:
         with open(replay) as f:
@@ -65,19 +67,20 @@ def main(argv=None):
             worst = max(worst, run_property(p, a.repo, a.tier, write_evidence=not a.no_evidence))
         return worst
     if a.tier == 'thorough' and not a.replay and not a.no_selftest:
-        # thorough: the same decision with the deepest settings, plus the checker's own validation on scratch copies
-        # (self-test corpora and the stored independent seeds); the validation is recorded in the evidence and a
-        # failure of it makes the run inconclusive (exit 2), never a VIOLATION of /repo
+        # thorough: the same decision, plus the checker's own validation on scratch copies of the working tree (self-test
+        # corpora, the stored independent seeds, behaviour-preserving variants).  The validation is about the checker: it is
+        # printed and recorded in the evidence; the exit status is the verdict on /repo alone
         import io
-        probe = run_property(pid, a.repo, a.tier, write_evidence=False, out=io.StringIO())
+        got = {}
+        probe = run_property(pid, a.repo, a.tier, write_evidence=False, out=io.StringIO(), collect=got)
         sc, notes = 0, {}
         if probe != 1:
             from sa import selftest
-            sc = selftest.run_for_property(pid, a.repo)
+            sc = selftest.run_for_property(pid, a.repo, modules=got.get('modules'))
             notes = {'self_validation': dict(selftest.LAST)}
+        if notes:
+            notes['self_validation']['passed'] = (sc == 0)
         code = run_property(pid, a.repo, a.tier, write_evidence=not a.no_evidence, notes=notes)
-        if sc != 0 and code == 0:
-            code = 2
         return code
     return run_property(pid, a.repo, a.tier, replay=a.replay, write_evidence=not a.no_evidence)
 
